@@ -16,7 +16,7 @@ RULE = ('1-3 bundles relayed in sequence by one node (so that state carried from
         'Received encoding and transmitted bytes are both decoded by the reference decoder and compared. Non-trivial: at least one hop-by-hop '
         'block present on input; distinct = digest of the bundle descriptors.')
 COMPONENTS = bc.COMPONENTS
-PROBES = ('in.prev_node', 'in.hop_count', 'in.two_hop_count', 'in.age', 'in.create_time_zero', 'in.unknown_ext', 'in.large_block_num', 'seq.multi', 'probe.negative_age', 'fault.busy_before_forward', 'in.duplicate_block_num', 'in.ipn_three_element_eid')
+PROBES = ('in.prev_node', 'in.hop_count', 'in.two_hop_count', 'in.age', 'in.create_time_zero', 'in.unknown_ext', 'in.large_block_num', 'seq.multi', 'probe.negative_age', 'fault.busy_before_forward', 'in.duplicate_block_num', 'in.ipn_three_element_eid', 'fault.cl_send_error')
 ASSUMPTIONS = ['age is judged against the relay clock and only for non-negative differences (negative skew is a probe)',
                'hop counts are generated below their limit']
 CHUNK = 25
@@ -62,14 +62,14 @@ def gen(ch, tier):
         bundles.append(dict(
             source=ch.choice('src', ('dtn://src/', 'ipn:3.1', 'ipn:977000.3.1', 'dtn://src/svc#frag')), dest=ch.choice('dst', ('dtn://far/app', 'ipn:77.1', 'ipn:977000.77.1', 'dtn://far/app?q=1')),
             report_to=ch.choice('rpt', ('dtn:none', 'dtn://rpt/', 'ipn:977000.5.0')), time=ch.choice('ct', (0, 820000000000, 820000000000)) , seqno=bix,
-            lifetime=ch.choice('life', (1000, 3600000)), flags=ch.choice('fl', (0, 4, 0x20)), pri_crc=ch.choice('pc', (0, 1, 2, 2)),
+            cl_fail=(bix < 2 and ch.coin('clfail', 1, 8)), lifetime=ch.choice('life', (1000, 3600000)), flags=ch.choice('fl', (0, 4, 0x20)), pri_crc=ch.choice('pc', (0, 1, 2, 2)),
             pay_crc=ch.pick('yc', 3), plen=1 + ch.pick('plen', 60), tag=bix + 1, blocks=blocks, gap_ms=ch.choice('gap', (0, 1, 999, 60000)),
             busy_ms=ch.choice('busy', (0, 0, 0, 3, 40, 1500)), dup_nums=dup_nums))
     return dict(scenario='bp_forward', bundles=bundles, skew_ms=ch.choice('skew', (0, 0, 5000, 86400000, -5000, -86400000)))
 
 
 def encode(item):
-    pri = dict(flags=item['flags'], crc_type=item['pri_crc'], destination=item['dest'], source=item['source'], report_to=item['report_to'],
+    pri = dict(flags=item['flags'], crc_type=item['pri_crc'], destination='dtn://broken/app' if item.get('cl_fail') else item['dest'], source=item['source'], report_to=item['report_to'],
                create_time=item['time'], seqno=item['seqno'], lifetime=item['lifetime'])
     blocks = []
     for blk in item['blocks']:
@@ -91,7 +91,8 @@ class Run:
 
 
 def execute(plan, sched, verbose=False):
-    nodes = {'n1': dict(node_id='dtn://n1/', rx_routes=[['.*', 'forward']], tx_routes=[['.*', 'dtn://next/', None, None]],
+    nodes = {'n1': dict(node_id='dtn://n1/', rx_routes=[['.*', 'forward']],
+                        tx_routes=[['^dtn://broken/.*$', 'dtn://dead/', None, 'FAIL'], ['.*', 'dtn://next/', None, None]],
                         skew_us=plan['skew_ms'] * 1000)}
     har = bp_net.BpHarness(dict(nodes=nodes), sched, verbose)
     run = Run()
@@ -133,6 +134,13 @@ def _drive(run, plan, har):
             run.viols.append(('wellformed', 'undecodable-output', '%s: transmitted bytes are not a well-formed bundle: %s' % (where, errs[0][1])))
             return
         fwds = [dec for dec in decoded if not bc.is_admin(dec)]
+        if item.get('cl_fail'):
+            # the convergence layer refused this one: nothing of it may appear, now or together with a later bundle
+            run.stats['fault.cl_send_error'] = 1
+            if fwds:
+                run.viols.append(('forwarded', 'after-cl-failure', '%s was transmitted although its convergence layer refused it' % where))
+                return
+            continue
         if item.get('dup_nums'):
             run.stats['in.duplicate_block_num'] = 1
             if not fwds:
